@@ -50,7 +50,30 @@ def run(ctx):
             if any(is_enum_lit(l, 'security_mode', 'ne', 'MessageSecurityMode::Sign') and 'SignAndEncrypt' not in fmt_sym(b, l[3]) for l, _ in l2):
                 eB2.append(e)
         not_opn = any(l[0] == 'truth' and l[2] is False and 'is_open_secure_channel' in fmt_sym(b, l[1]) for l, e in lits)
-        if (eA or eB2) and unreachable_without(b, c.bb, eA + eB2) and not_opn:
+        # the same test written as a predicate method of the channel: `!self.pred()` counts when every way pred() can answer
+        # false establishes policy == None or mode not in {Sign, SignAndEncrypt}
+        def pred_false_means_no_security(l):
+            if not (l[0] == 'truth' and l[2] is False and l[1][0] == 'call' and l[1][1].startswith('core::comms::secure_channel::SecureChannel::')):
+                return False
+            if [fmt_sym(b, a_) for a_ in l[1][2]] != ['&(*self(_1))']:
+                return False
+            outs = bool_fn_outcomes(ctx, l[1][1], False)
+            hb = db.body(l[1][1])
+            if not outs or hb is None:
+                return False
+            def lit_is(x, field, op, variant, excl=None):
+                return x[0] == 'cmp' and x[1] == op and place_ends_with(x[2], field) and variant in fmt_sym(hb, x[3]) and (excl is None or excl not in fmt_sym(hb, x[3]))
+            for conj in outs:
+                a_ = any(lit_is(x, 'security_policy', 'eq', 'SecurityPolicy::None') for x in conj)
+                b1 = any(lit_is(x, 'security_mode', 'ne', 'MessageSecurityMode::SignAndEncrypt') for x in conj)
+                b2 = any(lit_is(x, 'security_mode', 'ne', 'MessageSecurityMode::Sign', excl='SignAndEncrypt') for x in conj)
+                if not (a_ or (b1 and b2)):
+                    return False
+            return True
+        eP = edges_where(F, pred_false_means_no_security)
+        if eP and unreachable_without(b, c.bb, eP) and not_opn:
+            r.ok(rule, key, 'MSG chunk copied unverified only when the channel\'s own security predicate is false, which it is only for policy None or a mode other than Sign / SignAndEncrypt', loc=c.loc)
+        elif (eA or eB2) and unreachable_without(b, c.bb, eA + eB2) and not_opn:
             r.ok(rule, key, 'MSG chunk copied unverified only when the channel policy is None or the mode is neither Sign nor SignAndEncrypt', loc=c.loc)
         else:
             r.fail(rule, key, 'received bytes are copied into the accepted chunk on a path that does not establish "no security" '
@@ -170,19 +193,13 @@ def run(ctx):
             r.lost(rule, fn + ':Ok', 'no Ok construction in ' + fn)
         for j, (bb, si, pl) in enumerate(oks):
             lits = Ff.literals_at(bb, si)
-            t = [l for l, e in lits if l[0] == 'truth' and l[2] is True and re.search(r'verify_hmac|verify_sha|' + var, fmt_sym(fb, l[1]))]
-            t += [l for l, e in lits if l[0] == 'truth' and l[2] is True and l[1][0] == 'place']
             key = '%s:Ok#%d' % (fn, j)
-            defs = named_local_defs(fb, Ff, var)
             want = r'^hash::verify_hmac_sha(1|256)\(' if fn.startswith('symmetric') else r'^Try::branch\(PKey::verify_\w+\(.*\)\)@Continue\.0$'
-            badd = [d for d in defs if not re.search(want, d)]
-            if not defs or badd:
-                r.fail(rule, key + ':provenance', '`%s` in %s is not the boolean returned by the verification primitive (%s)' % (var, fn, (badd or ['no definition'])[0][:100]), loc=fb.loc)
-                continue
-            if t:
-                r.ok(rule, key, 'Ok only on the true edge of `%s`, each definition of which is the primitive\'s boolean result' % fmt_sym(fb, t[0][1])[:80], loc=fb.loc)
+            ok_, how = verdict_guard(fb, Ff, lits, want)
+            if ok_:
+                r.ok(rule, key, 'Ok only on the true edge of ' + how, loc=fb.loc)
             else:
-                r.fail(rule, key, fn + ' returns Ok without the verification result being true', loc=fb.loc)
+                r.fail(rule, key, '%s returns Ok without the verification result being true: %s' % (fn, how), loc=fb.loc)
     # ---------------- (iv)
     rule = 'constant-time-compare'
     for fn in ('verify_hmac_sha1', 'verify_hmac_sha256'):
